@@ -4,8 +4,8 @@ from common import run_driver_parallel, pmap, guarded, tier_scale, exc_in_lark, 
 
 STR_POOL = ['"if"', '"else"', '"ifx"', '"i"', '"a"', '"ab"', '"abc"', '"IF"i', '"if"i', '"="', '"=="', '"+"', '"++"', '";"', '"x"', '"0"', '"in"', '"int"', '"a1"', '"El"i']
 RE_POOL = ['/[a-z]+/', '/[a-z_]\\w*/', '/\\w+/', '/[a-c]+/', '/a+/', '/ab?/', '/\\d+/', '/\\d+\\.\\d+/', '/[0-9a-f]+/', '/=+/', '/./', '/[^ ;]+/', '/i[a-z]/',
-           '/(?i:if)/', '/[a-z]+/i', '/[A-Z]+/', '/[a-zA-Z]+/', '/if|else/', '/i|if/', '/[a-z]{2}/', '/[a-z]{1,3}/', '/\\+\\+?/', '/[ab]+c/', '/x*y/', '/(?i:[a-z])+/', '/[a-z_]+/m', '/[a-z]+/s', '/[a-z] [a-z0-9]*/x', '/[a-f]+/im']
-ALPHA = list('ifelsxab=+;0 1IF') + ['  ', 'if', 'else', 'ab', '==', 'a1', 'int']
+           '/(?i:if)/', '/[a-z]+/i', '/[A-Z]+/', '/[a-zA-Z]+/', '/if|else/', '/i|if/', '/[a-z]{2}/', '/[a-z]{1,3}/', '/\\+\\+?/', '/[ab]+c/', '/x*y/', '/(?i:[a-z])+/', '/[a-z_]+/m', '/[a-z]+/s', '/[a-z] [a-z0-9]*/x', '/[a-f]+/im', '/0x [0-9a-f]{1,4}/x', '/[0-9a-z]{1,7}/', '/i f # kw\n/x', '/[a-z]{1,3} [0-9]? /x']
+ALPHA = list('ifelsxab=+;0 1IF') + ['  ', 'if', 'else', 'ab', '==', 'a1', 'int', '0x', 'ff', 'abcd']
 
 
 def gen_case(rng, big=False):
@@ -58,7 +58,16 @@ def _tables(p, text, use_bytes):
     for t in terms:
         pat = t.pattern.to_regexp()
         comp.append(re.compile(pat.encode('latin-1') if use_bytes else pat, flags))
-    info = [{'name': t.name, 'prio': t.priority, 'maxw': t.pattern.max_width, 'vlen': len(t.pattern.value), 'str': t.pattern.type == 'str'} for t in terms]
+    # the "maximal width" of the documented order, computed here from the regexp with its flags (not read from lark's Pattern objects)
+    try:
+        import re._parser as _sre
+    except ImportError:
+        import sre_parse as _sre
+    def maxw(t):
+        if t.pattern.type == 'str':
+            return len(t.pattern.value)
+        return int(_sre.parse(t.pattern.to_regexp()).getwidth()[1])
+    info = [{'name': t.name, 'prio': t.priority, 'maxw': maxw(t), 'vlen': len(t.pattern.value), 'str': t.pattern.type == 'str'} for t in terms]
     selfm, fsub = [], []
     for i, r in enumerate(terms):
         if r.pattern.type != 're':
